@@ -185,4 +185,27 @@ PROPS = {
                         "reuse of a handle/channel (a stale relay after reuse is a C13/C15 matter)"],
         "partial": ["the link-level split is proved on its model; its correspondence with sender_link.rs is checked by the engine-level harness"],
     },
+    "C12": {
+        "class_prefixes": ["c12-", "harness-crash"],
+        "subs": [
+            {"name": "c12", "n_quick": 1200, "n_thorough": 20000, "model": "coq/Conn/Lifecycle.v",
+             "rule": "scripts of 1..6 (thorough 1..9) events after a mostly sensible prefix (open;ph;po 60%, others 40%) over local "
+                     "open/close/close_with_error/drop and peer header/garbage header/open/close/close+error/begin (no, known, unknown "
+                     "remote-channel)/end/flow on an unmapped channel/empty frame/EOF; corpus of former disagreements first; thorough adds "
+                     "all 2000 scripts of length 3 over a 10-letter alphabet from scratch and after open;ph;po"},
+        ],
+        "rule": "a case is one script run against the real client ConnectionEngine over tokio::io::duplex (paused clock, one event per "
+                "barrier) and through the extracted Coq step function; compared per step: frames written (kind, close error condition), "
+                "EOF, results of open()/close()/on_close(); non-trivial = open succeeded and the connection was closed or stopped; "
+                "distinct by script text",
+        "trusted": ["model scope: connection/builder.rs header exchange (no SASL, no TLS), ConnectionEngine::{open, open_inner, event_loop, "
+                    "on_incoming, on_control, close_connection, wait_for_remote_close, on_error}, Connection::{send_open, send_close, "
+                    "on_incoming_open, on_incoming_close}, ConnectionHandle::{close, close_with_error, drop}; heartbeats and idle "
+                    "time-outs are C17, sessions C13, the acceptor side C01/C19",
+                    "scripted peer: one stimulus per quiescence barrier (sleep 1 ms on the paused clock = all tasks idle); the schedules "
+                    "explored are therefore the interleavings at event granularity, not inside a poll"],
+        "assumptions": ["the peer writes whole frames (partial frames/garbage are C15)", "no session is begun (C13 covers sessions)"],
+        "partial": ["interleavings finer than one event per barrier (two stimuli racing inside one select!) are not explored by the "
+                    "correspondence; the model's theorems quantify over event lists"],
+    },
 }
